@@ -12,7 +12,7 @@ from pySDC.core.level import Level
 
 IMPLICIT_QD = ['IE', 'LU', 'MIN-SR-S', 'MIN-SR-NS', 'MIN', 'Qpar', 'GS', 'LU2', 'TRAP', 'IEpar', 'TRAPAR', 'PIC',
                'MIN3', 'VDHS', 'LDU', 'Jumper']
-EXPLICIT_QD = ['EE', 'PIC']
+EXPLICIT_QD = ['EE', 'PIC', 'LF']  # all names qmat accepts for a strictly lower triangular matrix: FE/EE, PIC/Picard, SOE/LF/LeapFrog
 KDEP_QD = ['MIN-SR-FLEX', 'FLEX-JUMPER']
 NODE_TYPES = ['LEGENDRE', 'EQUID', 'CHEBY-1', 'CHEBY-2', 'CHEBY-3', 'CHEBY-4']
 QUAD_TYPES = ['RADAU-RIGHT', 'LOBATTO', 'GAUSS', 'RADAU-LEFT']
